@@ -3,6 +3,8 @@ package c04
 import (
 	"encoding/base64"
 	"encoding/hex"
+	"fmt"
+	"github.com/jcmturner/gokrb5/v8/asn1tools"
 	"github.com/jcmturner/gokrb5/v8/client"
 	"github.com/jcmturner/gokrb5/v8/service"
 	"io"
@@ -276,6 +278,34 @@ func points() []point {
 			}})
 		}
 	}
+	// the exported ciphertext verifiers and decryptors of every encryption type, handed a ciphertext
+	// directly (applications with their own framing call them): a valid ciphertext per etype
+	for _, id := range []int32{17, 18, 19, 20, 16, 23} {
+		et, err := crypto.GetEtype(id)
+		if err != nil {
+			continue
+		}
+		key := make([]byte, et.GetKeyByteSize())
+		for i := range key {
+			key[i] = byte(i*7 + int(id))
+		}
+		_, ct, err := et.EncryptMessage(key, []byte("sixteen byte msg plus a few more"), 3)
+		if err != nil {
+			continue
+		}
+		et2, key2 := et, key
+		ps = append(ps, point{fmt.Sprintf("EType(%d).VerifyIntegrity+DecryptMessage", id), "binary", [][]byte{ct}, func(b []byte) {
+			et2.VerifyIntegrity(key2, b, b, 3)
+			et2.DecryptMessage(key2, b, 3)
+			et2.DecryptData(key2, b)
+			et2.VerifyChecksum(key2, []byte("data"), b, 3)
+		}})
+	}
+	// the exported ASN.1 length helpers, on the start of a DER element
+	ps = append(ps, point{"asn1tools.GetLengthFromASN", "der", hxs(testdata.MarshaledKRB5ticket), func(b []byte) {
+		asn1tools.GetLengthFromASN(b)
+		asn1tools.GetNumberBytesInLengthHeader(b)
+	}})
 	return ps
 }
 
